@@ -1460,3 +1460,50 @@ V('c11-twin-class-star', 'C11', 'R11.2', LISTTREE,
   '''            if part == '*':
                 pattern_parts.append('.*?')''', '''            if part == '*':
                 pattern_parts.append(r'[\\s\\S]*?')''', expect='silent')
+
+# ---------------------------------------------------------------- C18
+PRIM = 'pymap/parsing/primitives.py'
+CMDSPY = 'pymap/parsing/commands.py'
+DTPY = 'pymap/parsing/specials/datetime_.py'
+SEQPY = 'pymap/parsing/specials/sequenceset.py'
+V('c18-revert-raw-span', 'C18', 'R18.1', PRIM,
+  'quoted = buf[start:end]', 'quoted = buf[start:end + 1]')
+V('c18-raw-short', 'C18', 'R18.1', PRIM,
+  'quoted = buf[start:end]', 'quoted = buf[start:end - 1]')
+V('c18-plus-branch-differs', 'C18', 'R18.2', PRIM,
+  '''        elif match.group(3) == b'+':
+            buf = buf[match.end(0):]
+            literal = bytes(buf[0:literal_length])''',
+  '''        elif match.group(3) == b'+':
+            buf = buf[match.end(0):]
+            literal = bytes(buf[0:literal_length]).rstrip(b'\\r\\n')''')
+V('c18-remainder-off', 'C18', 'R18.2', PRIM,
+  'return cls(literal, binary), buf[literal_length:]',
+  'return cls(literal, binary), buf[literal_length + 1:]')
+V('c18-no-upper', 'C18', 'R18.3', CMDSPY,
+  'cmd_parts.append(atom.value.upper())', 'cmd_parts.append(atom.value)')
+V('c18-lowercase-command', 'C18', 'R18.3', SELECTCMD,
+  "    command = b'CHECK'", "    command = b'Check'")
+V('c18-sieve-no-upper', 'C18', 'R18.3', 'pymap/sieve/manage/command.py',
+  'cmd_type = commands[cmd_name.value.upper()]',
+  'cmd_type = commands[cmd_name.value]')
+V('c18-date-format-differs', 'C18', 'R18.4', DTPY,
+  "raw_str = self.value.strftime('%d-%b-%Y %X %z')",
+  "raw_str = self.value.strftime('%Y-%m-%d %X %z')")
+V('c18-literal-prefix-format', 'C18', 'R18.4', PRIM,
+  "return b'%b{%d}\\r\\n' % (binary_prefix, self.length)",
+  "return b'%b{%d}\\n\\r' % (binary_prefix, self.length)")
+V('c18-seqset-writer-dash', 'C18', 'R18.4', SEQPY,
+  "parts.append(b'%b:%b' % (left, right))",
+  "parts.append(b'%b-%b' % (left, right))")
+# twins
+V('c18-twin-date-hms', 'C18', 'R18.4', DTPY,
+  "raw_str = self.value.strftime('%d-%b-%Y %X %z')",
+  "raw_str = self.value.strftime('%d-%b-%Y %H:%M:%S %z')", expect='silent')
+V('c18-twin-raw-local', 'C18', 'R18.1', PRIM,
+  '''                end = match.end(0)
+                quoted = buf[start:end]
+                return cls(bytes(unquoted), bytes(quoted)), buf[end:]''',
+  '''                stop = match.end(0)
+                return cls(bytes(unquoted), bytes(buf[start:stop])), buf[stop:]''',
+  expect='silent')
